@@ -10,7 +10,7 @@ use libhaystack::val::Value;
 use proptest::prelude::*;
 use serde_json::{json, Value as J};
 
-pub const MAGNITUDES: [f64; 8] = [0.0, 1.0, -1.0, 0.5, -273.15, 1e-7, 1e21, 12345.678];
+pub const MAGNITUDES: [f64; 9] = [0.0, -0.0, 1.0, -1.0, 0.5, -273.15, 1e-7, 1e21, 12345.678];
 
 pub fn dim_of(u: &Unit) -> [i8; 7] {
     match &u.dimensions {
@@ -118,6 +118,12 @@ fn unit_codecs(rv: &RVal, id: &str, rec: &mut Rec) -> Verdict {
         Ok(t) => t,
         Err(f) => return prefix_sig("C15:zinc", f, id),
     };
+    {
+        let r = zinc_encode_short_writes(&hv, &text);
+        if r.is_fail() {
+            return prefix_sig("C15:zinc", r, id);
+        }
+    }
     match zinc_decode(&text) {
         Ok(b) => {
             let v = diff_verdict("C15:zinc", rv, &project(&b), &text, rec);
@@ -269,7 +275,7 @@ fn check_non_id(c: &NonId, rec: &mut Rec) -> Verdict {
 }
 
 pub fn run(ctx: &mut Ctx) {
-    ctx.rule("enumerated exhaustively: every `pub static ref ..: Unit` of units_generated.rs (listed by the harness build script, independent of the UNITS map) x every identifier: get_unit(id) returns that very unit with the ids/dimension/scale/offset/quantity units.txt gives; x 8 magnitudes {0,1,-1,0.5,-273.15,1e-7,1e21,12345.678}: Zinc and Hayson round trip (Hayson also with INF, -INF and NaN, which it spells as strings next to the unit), and decoding of a foreign spelling by that identifier (Zinc suffix, Hayson unit member); Hayson documents in four member orders / escapings through six routes (Value and typed Number x from_str, from_reader, from_value); generated: near-miss and random strings that are no unit's identifier must give None; non-trivial: every (unit, id) pair / every non-identifier; distinct by string");
+    ctx.rule("enumerated exhaustively: every `pub static ref ..: Unit` of units_generated.rs (listed by the harness build script, independent of the UNITS map) x every identifier: get_unit(id) returns that very unit with the ids/dimension/scale/offset/quantity units.txt gives; x 9 magnitudes {0,-0,1,-1,0.5,-273.15,1e-7,1e21,12345.678}: Zinc and Hayson round trip (Hayson also with INF, -INF and NaN, which it spells as strings next to the unit), and decoding of a foreign spelling by that identifier (Zinc suffix, Hayson unit member); Hayson documents in four member orders / escapings through six routes (Value and typed Number x from_str, from_reader, from_value); generated: near-miss and random strings that are no unit's identifier must give None; non-trivial: every (unit, id) pair / every non-identifier; distinct by string");
     ctx.assume("unit-gen/units.txt is the database; an identifier shared by two database units is not asserted to resolve to either");
     enumerate(ctx);
     ctx.run_sub::<NonId>("non-identifier", ctx.tier.pick(80_000, 1_600_000), &non_ids, &check_non_id);
